@@ -362,7 +362,7 @@ type batchResult struct {
 	Viols      []viol           `json:"v,omitempty"`
 }
 
-func failing(l letter) bool { return l.Kind != KOk && l.Kind != KDeepOk }
+func failing(l letter) bool { return l.Kind != KOk && l.Kind != KDeepOk && l.Kind != KDeepHost }
 
 func runBatch(sp *space, sec int, lo, hi int64) batchResult {
 	st := &childStats{hist: map[string]int64{}, states: map[string]bool{}}
@@ -472,6 +472,7 @@ func main() {
 	var words, steps, nontriv int64
 	states := map[string]bool{}
 	var crashed []int
+	var allViols []viol
 	absorb := func(res string) {
 		var br batchResult
 		if err := json.Unmarshal([]byte(res), &br); err != nil {
@@ -486,12 +487,11 @@ func main() {
 		for _, s := range br.States {
 			states[s] = true
 		}
-		for _, v := range br.Viols {
-			run.Violation(v.Sig, v.What, map[string]any{"word": v.Word})
-		}
+		allViols = append(allViols, br.Viols...)
 	}
 	workers := runtime.NumCPU()
-	done := fw.Supervise(fw.SupOpts{N: nBatches, Workers: workers, CaseTimeout: 180 * time.Second, Mode: "batch",
+	childEnv := []string{"GODEBUG=clobberfree=1"} // freed objects (outgrown native stacks) are overwritten: use-after-free becomes visible
+	done := fw.Supervise(fw.SupOpts{N: nBatches, Workers: workers, CaseTimeout: 180 * time.Second, Mode: "batch", Env: childEnv,
 		Stop: func() bool { return run.Expired() }},
 		func(i int, res string, crash *fw.Crash) {
 			if crash != nil {
@@ -526,7 +526,7 @@ func main() {
 			}
 		}
 		fw.Supervise(fw.SupOpts{N: len(list), Workers: workers, CaseTimeout: 120 * time.Second, Mode: "single",
-			Env: []string{"C06_SINGLES=" + strings.Join(singles, ",")}},
+			Env: append([]string{"C06_SINGLES=" + strings.Join(singles, ",")}, childEnv...)},
 			func(i int, res string, crash *fw.Crash) {
 				if crash != nil {
 					w, _ := sp.secs[list[i].sec].word(list[i].idx)
@@ -538,6 +538,17 @@ func main() {
 				}
 				absorb(res)
 			})
+	}
+	// report the shortest failing histories first (fw keeps a bounded number of replay files)
+	sort.SliceStable(allViols, func(i, j int) bool {
+		a, b := len(strings.Fields(allViols[i].Word)), len(strings.Fields(allViols[j].Word))
+		if a != b {
+			return a < b
+		}
+		return allViols[i].Word+allViols[i].Sig < allViols[j].Word+allViols[j].Sig
+	})
+	for _, v := range allViols {
+		run.Violation(v.Sig, v.What, map[string]any{"word": v.Word})
 	}
 	for i := 0; i < len(sp.cases); i += len(sp.cases)/16 + 1 {
 		if w, ok := sp.secs[sp.cases[i].sec].word(sp.cases[i].lo); ok {
